@@ -15,7 +15,7 @@ Definition under (s : bytes) : bytes := match s with [] => [] | _ => s ++ [uscor
 (* fixed_name_part: basename [_discriminant] [_starttime]; the start-time text is recomputed from
    the clock at every call in the code (TimestampCfg::get_timestamp), hence an argument here *)
 Definition fixed_name_part (sp : file_spec) (nowtxt : bytes) : bytes :=
-  let f1 := match fdisc sp with Some d => under (fbase sp) ++ d | None => fbase sp end in
+  let f1 := match fdisc sp with Some (d0 :: dr) => under (fbase sp) ++ d0 :: dr | _ => fbase sp end in
   if fts sp then under f1 ++ nowtxt else f1.
 
 Definition with_suffix (sp : file_spec) (f : bytes) : bytes :=
@@ -125,7 +125,7 @@ Definition number_infix (i : N) : bytes := r_char :: pad_left 5 48 (dec i).
 
 Definition has_name_part (sp : file_spec) : bool :=
   match fbase sp with [] => false | _ => true end
-  || match fdisc sp with Some _ => true | None => false end || fts sp.
+  || match fdisc sp with Some (_ :: _) => true | _ => false end || fts sp.
 
 Definition index_of_listed (sp : file_spec) (name : bytes) : option N :=
   let stem := file_stem name in
